@@ -1201,16 +1201,19 @@ fn format_initializer_inner(
             // A comma expression must be parenthesised or it reads back as further declarators / elements
             format_subexpression(expr, 17, OperatorSide::CommaList, output, context)?
         }
-        ast::Initializer::Aggregate(exprs) => {
-            output.push_str("{ ");
-            let (head, tail) = exprs.split_first().unwrap();
-            format_initializer_inner(head, output, context)?;
-            for expr in tail {
-                output.push_str(", ");
-                format_initializer_inner(expr, output, context)?;
+        ast::Initializer::Aggregate(exprs) => match exprs.split_first() {
+            Some((head, tail)) => {
+                output.push_str("{ ");
+                format_initializer_inner(head, output, context)?;
+                for expr in tail {
+                    output.push_str(", ");
+                    format_initializer_inner(expr, output, context)?;
+                }
+                output.push_str(" }");
             }
-            output.push_str(" }");
-        }
+            // An empty aggregate is valid for a type without members
+            None => output.push_str("{}"),
+        },
         ast::Initializer::StaticSampler(_) => {
             if context.target == Target::Rssl {
                 panic!("static sampler definitions are not supported in formatter");
